@@ -151,20 +151,23 @@ contract(CPH + '.__init__', P, label='species-given',
          cross_check=False)
 contract(CPH + '.__init__', P, label='no-species', args=dict(self=Fields(CPH), name=Const('p')),
          ensures=[('empty-view', 'self.species == []'), ('no-elements', 'len(self.elements) == 0')], cross_check=False)
-contract(CPH + '.append_species', P, args=dict(self=phase3(), val=member('D', {'O': 2})), ghost=dict(q=other()),
+OBSERVED = ['sorted(self.elements) == ["H", "N", "O"]', 'self.species_names == ["A", "B", "C"]']   # the phase has been read (written) before
+contract(CPH + '.append_species', P, args=dict(self=phase3(), val=member('D', {'O': 2})), ghost=dict(q=other()), requires=OBSERVED,
          ensures=[('view', VIEW + ' == ["A", "B", "C", "D"]'), ('member-knows-its-phase', 'val.phase is self'),
                   ('elements-follow', 'sorted(self.elements) == ["H", "N", "O"]'), FRAME], cross_check=False)
 contract(CPH + '.extend_species', P, args=dict(self=phase3(), val=ListOf([member('D', {'O': 2}), member('E', {'C': 1})])), ghost=dict(q=other()),
+         requires=OBSERVED,
          ensures=[('view', VIEW + ' == ["A", "B", "C", "D", "E"]'), ('members-know-their-phase', 'all(s.phase is self for s in val)'),
                   ('elements-follow', 'sorted(self.elements) == ["C", "H", "N", "O"]'), FRAME], cross_check=False)
 for i, rest, els in ((0, ['B', 'C'], ['H', 'N', 'O']), (1, ['A', 'C'], ['H', 'N']), (2, ['A', 'B'], ['H', 'O'])):
-    contract(CPH + '.pop_species', P, label='i=%d' % i, args=dict(self=phase3(), i=Const(i)), ghost=dict(q=other()),
+    contract(CPH + '.pop_species', P, label='i=%d' % i, args=dict(self=phase3(), i=Const(i)), ghost=dict(q=other()), requires=OBSERVED,
              ensures=[('view', VIEW + ' == %r' % rest), ('elements-follow', 'sorted(self.elements) == %r' % els), FRAME], cross_check=False)
     contract(CPH + '.remove_species', P, label='name=%s' % 'ABC'[i], args=dict(self=phase3(), name=Const('ABC'[i])), ghost=dict(q=other()),
+             requires=OBSERVED,
              ensures=[('view', VIEW + ' == %r' % rest), ('elements-follow', 'sorted(self.elements) == %r' % els), FRAME], cross_check=False)
 contract(CPH + '.remove_species', P, label='absent-name', args=dict(self=phase3(), name=Const('Z')), raises={'ValueError': 'True'},
          cross_check=False)
-contract(CPH + '.clear_species', P, args=dict(self=phase3()), ghost=dict(q=other()),
+contract(CPH + '.clear_species', P, args=dict(self=phase3()), ghost=dict(q=other()), requires=OBSERVED,
          ensures=[('view', 'self.species == []'), ('elements-follow', 'len(self.elements) == 0'), FRAME], cross_check=False)
 contract(CPH + '.copy_species', P, args=dict(self=phase3()),
          ensures=[('same-members', '[s.name for s in result] == ["A", "B", "C"]'), ('not-the-phase-own-list', 'result is not self.species')],
